@@ -121,6 +121,9 @@ ResolverInv.vos ResolverInv.vok ResolverInv.required_vos: ResolverInv.v Base.vos
 ResolverAccept.vo ResolverAccept.glob ResolverAccept.v.beautified ResolverAccept.required_vo: ResolverAccept.v Base.vo Fields.vo SrcFacts.vo Msg.vo SrcDecisions.vo Cache.vo CacheSpec.vo CacheProofs.vo CacheAccept.vo Sim.vo Prober.vo Resolver.vo ResolverProofs.vo ResolverInv.vo
 ResolverAccept.vio: ResolverAccept.v Base.vio Fields.vio SrcFacts.vio Msg.vio SrcDecisions.vio Cache.vio CacheSpec.vio CacheProofs.vio CacheAccept.vio Sim.vio Prober.vio Resolver.vio ResolverProofs.vio ResolverInv.vio
 ResolverAccept.vos ResolverAccept.vok ResolverAccept.required_vos: ResolverAccept.v Base.vos Fields.vos SrcFacts.vos Msg.vos SrcDecisions.vos Cache.vos CacheSpec.vos CacheProofs.vos CacheAccept.vos Sim.vos Prober.vos Resolver.vos ResolverProofs.vos ResolverInv.vos
+ResolverFuel.vo ResolverFuel.glob ResolverFuel.v.beautified ResolverFuel.required_vo: ResolverFuel.v Base.vo Fields.vo SrcFacts.vo Msg.vo SrcDecisions.vo Cache.vo CacheSpec.vo CacheProofs.vo CacheAccept.vo Sim.vo Prober.vo Resolver.vo ResolverProofs.vo ResolverInv.vo ResolverAccept.vo
+ResolverFuel.vio: ResolverFuel.v Base.vio Fields.vio SrcFacts.vio Msg.vio SrcDecisions.vio Cache.vio CacheSpec.vio CacheProofs.vio CacheAccept.vio Sim.vio Prober.vio Resolver.vio ResolverProofs.vio ResolverInv.vio ResolverAccept.vio
+ResolverFuel.vos ResolverFuel.vok ResolverFuel.required_vos: ResolverFuel.v Base.vos Fields.vos SrcFacts.vos Msg.vos SrcDecisions.vos Cache.vos CacheSpec.vos CacheProofs.vos CacheAccept.vos Sim.vos Prober.vos Resolver.vos ResolverProofs.vos ResolverInv.vos ResolverAccept.vos
 BrowserInv.vo BrowserInv.glob BrowserInv.v.beautified BrowserInv.required_vo: BrowserInv.v Base.vo Fields.vo SrcFacts.vo Msg.vo SrcDecisions.vo Cache.vo CacheSpec.vo CacheProofs.vo Sim.vo SimProofs.vo Prober.vo Resolver.vo Browser.vo BrowserProofs.vo
 BrowserInv.vio: BrowserInv.v Base.vio Fields.vio SrcFacts.vio Msg.vio SrcDecisions.vio Cache.vio CacheSpec.vio CacheProofs.vio Sim.vio SimProofs.vio Prober.vio Resolver.vio Browser.vio BrowserProofs.vio
 BrowserInv.vos BrowserInv.vok BrowserInv.required_vos: BrowserInv.v Base.vos Fields.vos SrcFacts.vos Msg.vos SrcDecisions.vos Cache.vos CacheSpec.vos CacheProofs.vos Sim.vos SimProofs.vos Prober.vos Resolver.vos Browser.vos BrowserProofs.vos
@@ -190,9 +193,9 @@ Properties_C11.vos Properties_C11.vok Properties_C11.required_vos: Properties_C1
 Properties_C10.vo Properties_C10.glob Properties_C10.v.beautified Properties_C10.required_vo: Properties_C10.v Base.vo Fields.vo SrcFacts.vo Msg.vo SrcDecisions.vo Cache.vo CacheSpec.vo Sim.vo Prober.vo Hostname.vo Provider.vo ProviderSpec.vo ProviderProofs.vo ProviderListener.vo ProviderConverge.vo
 Properties_C10.vio: Properties_C10.v Base.vio Fields.vio SrcFacts.vio Msg.vio SrcDecisions.vio Cache.vio CacheSpec.vio Sim.vio Prober.vio Hostname.vio Provider.vio ProviderSpec.vio ProviderProofs.vio ProviderListener.vio ProviderConverge.vio
 Properties_C10.vos Properties_C10.vok Properties_C10.required_vos: Properties_C10.v Base.vos Fields.vos SrcFacts.vos Msg.vos SrcDecisions.vos Cache.vos CacheSpec.vos Sim.vos Prober.vos Hostname.vos Provider.vos ProviderSpec.vos ProviderProofs.vos ProviderListener.vos ProviderConverge.vos
-Properties_C16.vo Properties_C16.glob Properties_C16.v.beautified Properties_C16.required_vo: Properties_C16.v Base.vo Fields.vo SrcFacts.vo Msg.vo SrcDecisions.vo Cache.vo Sim.vo SimProofs.vo Prober.vo Resolver.vo ResolverProofs.vo ResolverInv.vo CacheSpec.vo CacheProofs.vo ResolverAccept.vo
-Properties_C16.vio: Properties_C16.v Base.vio Fields.vio SrcFacts.vio Msg.vio SrcDecisions.vio Cache.vio Sim.vio SimProofs.vio Prober.vio Resolver.vio ResolverProofs.vio ResolverInv.vio CacheSpec.vio CacheProofs.vio ResolverAccept.vio
-Properties_C16.vos Properties_C16.vok Properties_C16.required_vos: Properties_C16.v Base.vos Fields.vos SrcFacts.vos Msg.vos SrcDecisions.vos Cache.vos Sim.vos SimProofs.vos Prober.vos Resolver.vos ResolverProofs.vos ResolverInv.vos CacheSpec.vos CacheProofs.vos ResolverAccept.vos
+Properties_C16.vo Properties_C16.glob Properties_C16.v.beautified Properties_C16.required_vo: Properties_C16.v Base.vo Fields.vo SrcFacts.vo Msg.vo SrcDecisions.vo Cache.vo Sim.vo SimProofs.vo Prober.vo Resolver.vo ResolverProofs.vo ResolverInv.vo CacheSpec.vo CacheProofs.vo ResolverAccept.vo ResolverFuel.vo
+Properties_C16.vio: Properties_C16.v Base.vio Fields.vio SrcFacts.vio Msg.vio SrcDecisions.vio Cache.vio Sim.vio SimProofs.vio Prober.vio Resolver.vio ResolverProofs.vio ResolverInv.vio CacheSpec.vio CacheProofs.vio ResolverAccept.vio ResolverFuel.vio
+Properties_C16.vos Properties_C16.vok Properties_C16.required_vos: Properties_C16.v Base.vos Fields.vos SrcFacts.vos Msg.vos SrcDecisions.vos Cache.vos Sim.vos SimProofs.vos Prober.vos Resolver.vos ResolverProofs.vos ResolverInv.vos CacheSpec.vos CacheProofs.vos ResolverAccept.vos ResolverFuel.vos
 Properties_C17.vo Properties_C17.glob Properties_C17.v.beautified Properties_C17.required_vo: Properties_C17.v Base.vo Fields.vo SrcFacts.vo Msg.vo SrcDecisions.vo Sim.vo Hostname.vo HostnameProofs.vo HostnameInv.vo HostnameAccept.vo
 Properties_C17.vio: Properties_C17.v Base.vio Fields.vio SrcFacts.vio Msg.vio SrcDecisions.vio Sim.vio Hostname.vio HostnameProofs.vio HostnameInv.vio HostnameAccept.vio
 Properties_C17.vos Properties_C17.vok Properties_C17.required_vos: Properties_C17.v Base.vos Fields.vos SrcFacts.vos Msg.vos SrcDecisions.vos Sim.vos Hostname.vos HostnameProofs.vos HostnameInv.vos HostnameAccept.vos
